@@ -187,3 +187,56 @@ M('c10-block-connectors', 'C10', CIRC, "                    if cur_gate.gate_typ
 M('c10-block-outputs-unmapped', 'C10', CIRC, "                outputs=[old_to_new_names[_output] for _output in other.outputs],\n            )\n\n            self._blocks[new_block.name]", "                outputs=[prefix + _output for _output in other.outputs],\n            )\n\n            self._blocks[new_block.name]", 'C10.BLOCK')
 M('c10-input-validation', 'C10', CIRC, "            for gate_label in this_connectors:\n                if self.get_gate(gate_label).gate_type != gate.INPUT:\n                    raise CreateBlockError()", "            pass", 'C10.UNIQ')
 M('c10-twin-kw', 'C10', CIRC, "        return self.connect_circuit(\n            other,\n            self.inputs,\n            other.inputs,\n            right_connect=True,", "        return self.connect_circuit(\n            other=other,\n            this_connectors=self.inputs,\n            other_connectors=other.inputs,\n            right_connect=True,", None)
+
+# ---------------------------------------------------------------- C13
+MIT = 'cirbo/sat/miter.py'
+GENG = 'cirbo/synthesis/generation/generation.py'
+M('c13-shape-and', 'C13', MIT, "if (left.input_size != right.input_size) or (left.output_size != right.output_size):", "if (left.input_size != right.input_size) and (left.output_size != right.output_size):", 'C13.SHAPE')
+M('c13-shape-inputs-only', 'C13', MIT, "if (left.input_size != right.input_size) or (left.output_size != right.output_size):", "if left.input_size != right.input_size:", 'C13.SHAPE')
+M('c13-arity-back', 'C13', MIT, "    elif len(xor_outputs) == 1:\n        # OR needs at least two operands.\n        miter.emplace_gate(OR_NAME, gate.IFF, xor_outputs)\n", "", 'C13.ARITY')
+M('c13-final-and', 'C13', MIT, "        miter.emplace_gate(OR_NAME, gate.OR, xor_outputs)", "        miter.emplace_gate(OR_NAME, gate.AND, xor_outputs)", 'C13.WIRE')
+M('c13-single-not', 'C13', MIT, "miter.emplace_gate(OR_NAME, gate.IFF, xor_outputs)", "miter.emplace_gate(OR_NAME, gate.NOT, xor_outputs)", 'C13.WIRE')
+M('c13-wire-outputs-swapped', 'C13', MIT, "        miter.get_block(left_name).outputs + miter.get_block(right_name).outputs,", "        miter.get_block(left_name).outputs + miter.get_block(left_name).outputs,", 'C13.WIRE')
+M('c13-wire-right-inputs', 'C13', MIT, "        miter.get_block(left_name).inputs,\n        right.inputs,", "        miter.get_block(left_name).inputs,\n        list(reversed(right.inputs)),", 'C13.WIRE')
+M('c13-xor-interleaved', 'C13', GENG, "    circuit.add_inputs(x_labels)\n    circuit.add_inputs(y_labels)\n\n    add_pairwise_xor(", "    circuit.add_inputs([l for pair in zip(x_labels, y_labels) for l in pair])\n\n    add_pairwise_xor(", 'C13.WIRE')
+M('c13-xor-elem', 'C13', GENG, "Gate(result_labels[i], gate.XOR, (x_labels[i], y_labels[i]))", "Gate(result_labels[i], gate.NXOR, (x_labels[i], y_labels[i]))", 'C13.WIRE')
+M('c13-pure-left', 'C13', MIT, "    miter = Circuit().add_circuit(left, name=left_name)", "    miter = left.add_circuit(Circuit(), name=left_name)", 'C13')
+M('c13-twin-rename', 'C13', MIT, "    pairwise_xor = generate_pairwise_xor(left.output_size)\n    miter.connect_circuit(\n        pairwise_xor,", "    pxor = generate_pairwise_xor(left.output_size)\n    pairwise_xor = pxor\n    miter.connect_circuit(\n        pairwise_xor,", None)
+
+# ---------------------------------------------------------------- C19
+M('c19-rename-outputs', 'C19', CIRC, "            for idx in self.all_indexes_of_output(old_label):\n                self._outputs[idx] = new_label", "            self._outputs[self.index_of_output(old_label)] = new_label", 'C19.RENAME')
+M('c19-rename-blocks', 'C19', CIRC, "        for i, output_label in enumerate(self.outputs):\n            if output_label == old_label:\n                self.outputs[i] = new_label\n", "", 'C19.RENAME')
+M('c19-rename-users-members', 'C19', CIRC, "            operand_users[operand_users.index(old_label)] = new_label", "            operand_users.remove(old_label)", 'C19.RENAME')
+M('c19-inputs-swapped', 'C19', CIRC, "        _replace_inputs(inputs_to_true, gate.ALWAYS_TRUE)\n        _replace_inputs(inputs_to_false, gate.ALWAYS_FALSE)", "        _replace_inputs(inputs_to_true, gate.ALWAYS_FALSE)\n        _replace_inputs(inputs_to_false, gate.ALWAYS_TRUE)", 'C19.INPUTS')
+M('c19-inputs-guard', 'C19', CIRC, "                if self.get_gate(input_label).gate_type != gate.INPUT:\n                    raise GateNotInputError()\n", "", 'C19.INPUTS')
+M('c19-const-true', 'C19', OPS, "def always_true_(*args: GateState) -> GateState:\n    return True", "def always_true_(*args: GateState) -> GateState:\n    return len(args) == 0", 'C19.INPUTS')
+M('c19-remove-users-unchecked', 'C19', CIRC, "        check_gate_has_not_users(gate_label, self)\n        return self._remove_gate(gate_label)", "        return self._remove_gate(gate_label)", 'C19.REMOVE')
+M('c19-remove-keeps-output', 'C19', CIRC, "        if gate_label in self.outputs:\n            self._outputs = [output for output in self.outputs if output != gate_label]\n", "", 'C19.REMOVE')
+M('c19-subc-no-overlap-check', 'C19', CIRC, "        if len(inputs_mapping) + len(outputs_mapping) != len(\n            inputs_mapping | outputs_mapping\n        ):\n            raise ReplaceSubcircuitError()\n", "", 'C19.SUBC')
+M('c19-subc-restore-before', 'C19', CIRC, "        self._remove_block(block_for_deleting.name)\n\n        for new_gate in subcircuit.top_sort(inverse=True):\n            if new_gate.label not in inputs_mapping.values():\n                self.add_gate(new_gate)\n\n        self._outputs = copy_outputs",
+  "        self._remove_block(block_for_deleting.name)\n        self._outputs = copy_outputs\n\n        for new_gate in subcircuit.top_sort(inverse=True):\n            if new_gate.label not in inputs_mapping.values():\n                self.add_gate(new_gate)\n", 'C19.SUBC')
+M('c19-subc-no-guard-exclusion', 'C19', CIRC, "            exclusion_gates=set(outputs_mapping.values()),\n        )\n        self._remove_block", "            exclusion_gates=set(block_for_deleting.gates),\n        )\n        self._remove_block", 'C19.SUBC')
+M('c19-subc-inputs-unmapped', 'C19', CIRC, "        for _input in subcircuit.inputs:\n            if _input not in inputs_mapping.values():\n                raise ReplaceSubcircuitError()\n", "", 'C19.SUBC')
+M('c19-subc-early-return', 'C19', CIRC, "        check_circuit_has_no_cycles(self)\n\n        return self\n\n    def rename_gate", "        if len(outputs_mapping) > 1:\n            check_circuit_has_no_cycles(self)\n\n        return self\n\n    def rename_gate", 'C19.SUBC')
+M('c19-twin-rename-order', 'C19', CIRC, "        if old_label in self._inputs:\n            self._inputs[self.index_of_input(old_label)] = new_label\n\n        if old_label in self._outputs:\n            for idx in self.all_indexes_of_output(old_label):\n                self._outputs[idx] = new_label\n",
+  "        if old_label in self._outputs:\n            for idx in self.all_indexes_of_output(old_label):\n                self._outputs[idx] = new_label\n\n        if old_label in self._inputs:\n            self._inputs[self._inputs.index(old_label)] = new_label\n", None)
+
+# ---------------------------------------------------------------- C20
+VAL = 'cirbo/core/circuit/validation.py'
+M('c20-exit-in-visited', 'C20', CIRC, "            elif gate_states[current_elem.label] == TraverseState.ENTERED:\n                on_exit_hook(current_elem, gate_states)\n                gate_states[current_elem.label] = TraverseState.VISITED\n                queue.pop(pop_index)\n\n            elif gate_states[current_elem.label] == TraverseState.VISITED:\n                queue.pop(pop_index)",
+  "            elif gate_states[current_elem.label] == TraverseState.ENTERED:\n                gate_states[current_elem.label] = TraverseState.VISITED\n                queue.pop(pop_index)\n\n            elif gate_states[current_elem.label] == TraverseState.VISITED:\n                on_exit_hook(current_elem, gate_states)\n                queue.pop(pop_index)", 'C20.STATE')
+M('c20-enter-after-children', 'C20', CIRC, "                on_enter_hook(current_elem, gate_states)\n                gate_states[current_elem.label] = TraverseState.ENTERED\n\n                for child in _next_getter(current_elem):\n                    on_discover_hook(self.get_gate(child), gate_states)\n                    if gate_states[child] == TraverseState.UNVISITED:\n                        queue.append(child)\n",
+  "                gate_states[current_elem.label] = TraverseState.ENTERED\n\n                for child in _next_getter(current_elem):\n                    on_discover_hook(self.get_gate(child), gate_states)\n                    if gate_states[child] == TraverseState.UNVISITED:\n                        queue.append(child)\n                on_enter_hook(current_elem, gate_states)\n", 'C20.STATE')
+M('c20-enqueue-entered', 'C20', CIRC, "                    if gate_states[child] == TraverseState.UNVISITED:\n                        queue.append(child)", "                    if gate_states[child] != TraverseState.VISITED:\n                        queue.append(child)", 'C20.STATE')
+M('c20-dfs-front', 'C20', CIRC, "        elif mode == TraverseMode.DFS:\n            pop_index = -1", "        elif mode == TraverseMode.DFS:\n            pop_index = 0", 'C20.STATE')
+M('c20-start-live-list', 'C20', CIRC, "        elif inverse:\n            queue = list(self.inputs)\n        else:\n            queue = list(self.outputs)", "        elif inverse:\n            queue = list(self.inputs)\n        else:\n            queue = self.outputs", 'C20.STATE')
+M('c20-unvisited-all', 'C20', CIRC, "            for label in self._gates:\n                if gate_states[label] == TraverseState.UNVISITED:\n                    unvisited_hook(self.get_gate(label), gate_states)", "            for label in self._gates:\n                if gate_states[label] != TraverseState.VISITED:\n                    unvisited_hook(self.get_gate(label), gate_states)", 'C20.UNVIS')
+M('c20-unvisited-topsort-dir', 'C20', CIRC, "            for _gate in self.top_sort(inverse=True):\n                if gate_states[_gate.label] == TraverseState.UNVISITED:", "            for _gate in self.top_sort():\n                if gate_states[_gate.label] == TraverseState.UNVISITED:", 'C20.UNVIS')
+M('c20-dual-pred', 'C20', CIRC, "            (lambda elem: len(elem.operands))\n            if inverse\n            else (lambda elem: len(self.get_gate_users(elem.label)))", "            (lambda elem: len(elem.operands))\n            if inverse\n            else (lambda elem: len(elem.operands))", 'C20.DUAL')
+M('c20-dual-next', 'C20', CIRC, "        _next_getter = (\n            (lambda elem: self.get_gate_users(elem.label))\n            if inverse\n            else (lambda elem: elem.operands)\n        )", "        _next_getter = (\n            (lambda elem: elem.operands)\n            if inverse\n            else (lambda elem: self.get_gate_users(elem.label))\n        )", 'C20.DUAL')
+M('c20-kahn-set', 'C20', CIRC, "            for successor in _successors_getter(current_elem):\n                indegree_map[successor] -= 1", "            for successor in set(_successors_getter(current_elem)):\n                indegree_map[successor] -= 1", 'C20.KAHN')
+M('c20-kahn-yield-cond', 'C20', CIRC, "                    queue.append(successor)\n            yield current_elem", "                    queue.append(successor)\n            if current_elem.gate_type != gate.INPUT or inverse:\n                yield current_elem", 'C20.KAHN')
+M('c20-cycle-visited', 'C20', VAL, "        if gate_states[gate.label] == TraverseState.ENTERED:", "        if gate_states[gate.label] == TraverseState.VISITED:", 'C20.CYCLE')
+M('c20-bfs-hooks', 'C20', CIRC, "            TraverseMode.BFS,\n            start_gates,\n            inverse=inverse,", "            TraverseMode.BFS,\n            start_gates,\n            inverse=not inverse,", 'C20.ENTRY')
+M('c20-twin-rename', 'C20', CIRC, "                for child in _next_getter(current_elem):\n                    on_discover_hook(self.get_gate(child), gate_states)\n                    if gate_states[child] == TraverseState.UNVISITED:\n                        queue.append(child)",
+  "                for nxt in _next_getter(current_elem):\n                    on_discover_hook(self.get_gate(nxt), gate_states)\n                    if gate_states[nxt] == TraverseState.UNVISITED:\n                        queue.append(nxt)", None)
